@@ -606,6 +606,25 @@ func c09Doc(r *rand.Rand, corpus []wl.Example) []byte {
 	return d
 }
 
+// c09Long concatenates many small documents (blank-line separated): state that accumulates with the length of a
+// document (counters, buffers with thresholds, tables that grow) only shows on long inputs.
+func c09Long(r *rand.Rand, corpus []wl.Example) []byte {
+	var d []byte
+	for k := 8 + r.Intn(70); k > 0; k-- {
+		part := c09Doc(r, corpus)
+		if r.Intn(3) == 0 {
+			// plain multi-line paragraphs make line counts grow without closing anything special
+			part = nil
+			for n := 1 + r.Intn(40); n > 0; n-- {
+				part = append(part, "line of text\n"...)
+			}
+		}
+		d = append(d, part...)
+		d = append(d, '\n')
+	}
+	return d
+}
+
 func runC09(c *core.Ctx) {
 	pool := cfg.NewPool()
 	specs := c09Specs()
@@ -615,6 +634,14 @@ func runC09(c *core.Ctx) {
 	n1 := c.PerShard(c.N(900000, 25000000))
 	for i := 0; i < n1; i++ {
 		a, b := c09Doc(r, corpus), c09Doc(r, corpus)
+		switch r.Intn(24) {
+		case 0:
+			a = c09Long(r, corpus)
+			c.Count("independence_pairs_with_long_A", 1)
+		case 1:
+			b = c09Long(r, corpus)
+			c.Count("independence_pairs_with_long_B", 1)
+		}
 		if r.Intn(8) == 0 {
 			// A is itself a closed-block-terminated document: exercise explicit closers
 			a = append(a, []string{"\n```\n", "\n-->\n", "\n\n", "\n</pre>\n", "\n?>\n", "\n]]>\n", "\n>\n"}[r.Intn(7)]...)
@@ -629,6 +656,10 @@ func runC09(c *core.Ctx) {
 	n2 := c.PerShard(c.N(500000, 15000000))
 	for i := 0; i < n2; i++ {
 		d := c09Doc(r, corpus)
+		if r.Intn(24) == 0 {
+			d = c09Long(r, corpus)
+			c.Count("definition_moves_with_long_D", 1)
+		}
 		d = bytes.ReplaceAll(d, []byte("]:"), []byte("] "))
 		defs, dsrc := c09GenDefs(r)
 		d = c09InjectRefs(r, d, defs)
